@@ -422,8 +422,8 @@ func c02Sync(c *Ctx) {
 			arg := adv.Common().Args[1]
 			if bo, ok := stripConv(arg).(*ssa.BinOp); ok && bo.Op == token.MUL {
 				isLenNull := func(v ssa.Value) bool {
-					cl, ok := stripConv(v).(*ssa.Call)
-					return ok && callee(cl) == "builtin:len" && hasOrigin(cl.Call.Args[0], func(o string) bool { return o == "field:NullChunk.Data" })
+					cl := lenCallOf(stripConv(v)) // also "nullSize := len(c.nullChunk.Data)" hoisted into a local
+					return cl != nil && hasOrigin(cl.Call.Args[0], func(o string) bool { return o == "field:NullChunk.Data" })
 				}
 				var count ssa.Value
 				if isLenNull(bo.Y) {
@@ -433,13 +433,16 @@ func c02Sync(c *Ctx) {
 				}
 				if count != nil {
 					// a loop bounded by the same count that emits chunks of Size len(null)
-					for _, b := range st.Blocks {
+					for _, b := range adv.Parent().Blocks {
 						iff := lastIf(b)
 						if iff == nil {
 							continue
 						}
 						cm, _, ok := cmpOf(iff.Cond)
 						if ok && cm.op == token.LSS && sameValue(cm.y, count) {
+							okAdv = true
+						}
+						if ok && cm.op == token.GTR && sameValue(cm.x, count) {
 							okAdv = true
 						}
 					}
@@ -450,7 +453,7 @@ func c02Sync(c *Ctx) {
 		instrs(st, func(_ *ssa.BasicBlock, _ int, ins ssa.Instruction) {
 			if s, ok := ins.(*ssa.Store); ok {
 				if fa, ok := s.Addr.(*ssa.FieldAddr); ok && fieldOf(fa) == "IndexChunk.Size" {
-					if cl, ok := stripConv(s.Val).(*ssa.Call); ok && callee(cl) == "builtin:len" && hasOrigin(cl.Call.Args[0], func(o string) bool { return o == "field:NullChunk.Data" }) {
+					if cl := lenCallOf(stripConv(s.Val)); cl != nil && hasOrigin(cl.Call.Args[0], func(o string) bool { return o == "field:NullChunk.Data" }) {
 						sizeOK = true
 					}
 				}
